@@ -1,5 +1,7 @@
 import Driver.Frame
 import KrakenModel.Model.BackendSpec
+import KrakenModel.Model.ShadowBackend
+import KrakenModel.Model.SqlBackend
 /- Driver for C37: replays backend.Client histories on the storage-contract specification
    (`Model.BackendSpec`, keyed by blob path / S3 key) instantiated with the matching relation,
    size tracking and pagination behaviour of the backend named in the cfg record, and monitors
@@ -12,8 +14,15 @@ import KrakenModel.Model.BackendSpec
    op stat <name>               => size <n> | notfound | err:<class>
    op list <prefix>             => names <sorted names> | err:<class>
    op page <prefix> <k> <tok|-> => names <names in order> next=<tok|-> | err:<class>
+   op put-raw <key> <bytes>     => ok        (s3 only: an object stored under a key by someone else)
+   op download@shadow|download@active <name>   (shadow only: read one wrapped backend directly)
+
+   The answers come from the models the theorems of Spec/C37 are about: `BackendSpec` (store, server
+   pager, `clientPage` = the page loop of s3backend.List with its convertible-key filter),
+   `ShadowBackend` (two wrapped stores, seekable sources) and `SqlBackend` (table, upsert, the two
+   ORDER BY queries); key mapping and matching relation per backend are computed here.
 -/
-open Driver KrakenModel.BackendSpec
+open Driver KrakenModel KrakenModel.BackendSpec
 
 namespace C37
 
@@ -39,10 +48,18 @@ structure Mon where
 
 structure St where
   cfg : Cfg
-  act : Store String := []
-  shd : Store String := []
+  sh : ShadowBackend.State String := {}  -- the (active) store; the shadow side for be=shadow
+  tbl : SqlBackend.Table String String := []   -- be=sql: the tags table
   names : List (String × String) := []   -- key ↦ name
   mon : Mon := {}
+
+def St.act (s : St) : Store String := s.sh.active
+
+/-- keys of the backend in key order (for be=sql: "repo:tag" in (repo, tag) order) -/
+def St.allKeys (s : St) : List String :=
+  if s.cfg.be = "sql" then
+    (SqlBackend.catalogQuery slt s.tbl).flatMap fun r => (SqlBackend.tagsQuery slt s.tbl r).map fun t => r ++ ":" ++ t
+  else keys s.act
 
 def init (toks : List String) : Option St := do
   let be ← kv? toks "be"
@@ -68,12 +85,17 @@ def repoTag? (name : String) : Option (String × String) :=
 
 def stripSlash (s : String) : String := if s.startsWith "/" then (s.drop 1).toString else s
 
+/-- the root as `path.Join` leaves it: no trailing slash, `/` alone is empty -/
+def cleanRoot (r : String) : String :=
+  let cs := (r.toList.reverse.dropWhile (· = '/')).reverse
+  String.ofList cs
+
 def basePath (c : Cfg) : String :=
-  if c.pather = "docker_tag" then c.root ++ "/docker/registry/v2/repositories" else c.root
+  if c.pather = "docker_tag" then cleanRoot c.root ++ "/docker/registry/v2/repositories" else cleanRoot c.root
 
 /-- storage key of a name (`none`: the client rejects the name) -/
 def key? (c : Cfg) (name : String) : Option String :=
-  if c.pather = "identity" then some (stripSlash (c.root ++ "/" ++ name))
+  if c.pather = "identity" then some (stripSlash (cleanRoot c.root ++ "/" ++ name))
   else match repoTag? name with
     | none => none
     | some (r, t) =>
@@ -102,10 +124,18 @@ def dedup (xs : List String) : List String := xs.eraseDups
 
 def namesTok (xs : List String) : String := listTok xs
 
+/-- a key the client can convert back to a name (keys written by someone else cannot) -/
+def conv (s : St) (k : String) : Bool := s.names.any (·.1 = k)
+
 /-- unpaginated List of the active backend, in the backend's own order (`none`: the error class) -/
 def listNames (s : St) (p : String) : Except String (List String) :=
   let c := s.cfg
-  if c.mtch = "repo" then
+  if c.be = "sql" then
+    if p.isEmpty then .ok ((SqlBackend.catalogQuery slt s.tbl).map (· ++ ":dummy"))
+    else
+      let repo := sqlRepo p
+      .ok ((SqlBackend.tagsQuery slt s.tbl repo).map fun t => repo ++ ":" ++ t)
+  else if c.mtch = "repo" then
     if p.isEmpty then
       .ok ((sortStr (dedup ((keys s.act).filterMap fun k => (repoTag? k).map (·.1)))).map (· ++ ":dummy"))
     else .ok ((list (matchesP c p) s.act).map (nameOf s))
@@ -113,7 +143,10 @@ def listNames (s : St) (p : String) : Except String (List String) :=
     let under := list (matchesP c p) s.act
     if under.isEmpty ∧ c.emptyErr ∧ ¬ (keys s.act).contains (prefixPath c p) then .error "err:status500"
     else .ok (under.map (nameOf s))
-  else .ok ((list (matchesP c p) s.act).map (nameOf s))
+  else
+    -- s3backend.List without pagination: the page loop reads every server page
+    let ks := list (matchesP c p) s.act
+    .ok ((clientPage slt (conv s) ks c.listmax c.cap none (ks.length + 1) none []).1.map (nameOf s))
 
 /-- the harness reports an unpaginated listing sorted -/
 def listObs (s : St) (p : String) : List String :=
@@ -140,7 +173,7 @@ def pageObs (s : St) (p : String) (k : Nat) (tok : String) : List String :=
     | none => ["err:other"]
     | some t =>
       let ks := list (matchesP c p) s.act
-      let (pg, next) := clientPage slt ks k c.cap (ks.length + 1) t []
+      let (pg, next) := clientPage slt (conv s) ks k c.cap (some k) (ks.length + 1) t []
       ["names", namesTok (pg.map (nameOf s)), "next=" ++ (match next with | none => "-" | some x => tokOf x)]
 
 def ghostNames (s : St) (p : String) : List String :=
@@ -154,7 +187,13 @@ def step (s : St) (kind : String) (args impl : List String) : Option (St × Step
   | ["download", nameT] | ["download", nameT, "w=at"] =>
     let obs := match key? c nameT with
       | none => ["err:badname"]
-      | some k => match download s.act k with
+      | some k =>
+        let r := if c.be = "sql" then
+            (match repoTag? nameT with
+              | some (rp, tg) => (match SqlBackend.first s.tbl rp tg with | some b => DownloadResult.bytes b | none => .notFound)
+              | none => .notFound)
+          else if c.shadowed then ShadowBackend.sdownload s.sh k else download s.act k
+        match r with
         | .bytes b => ["bytes", bytesTok b]
         | .notFound => ["notfound"]
     let ghost := (s.mon.ups.find? (·.1 = nameT)).map (·.2)
@@ -170,9 +209,14 @@ def step (s : St) (kind : String) (args impl : List String) : Option (St × Step
     let obs := match key? c nameT with
       | none => ["err:badname"]
       | some k =>
-        let a := lookup s.act k
-        let present := a.isSome ∧ (¬ c.shadowed ∨ (lookup s.shd k).isSome)
-        if present then ["size", toString (if c.sizes then (a.getD []).length else 0)] else ["notfound"]
+        let sz : Option Nat := if c.be = "sql" then
+            (match repoTag? nameT with
+              | some (rp, tg) => (SqlBackend.first s.tbl rp tg).map List.length
+              | none => none)
+          else if c.shadowed then ShadowBackend.sstat s.sh k else stat s.act k
+        match sz with
+        | some n => ["size", toString (if c.sizes then n else 0)]
+        | none => ["notfound"]
     let ghost := (s.mon.ups.find? (·.1 = nameT)).map (·.2)
     let pf : List String := if mute then [] else
       match impl, ghost with
@@ -193,6 +237,28 @@ def step (s : St) (kind : String) (args impl : List String) : Option (St × Step
           [s!"side=impl key=listing-not-exactly-the-stored-names list returned {list? ns}, stored under the prefix: {want}"] else []
       | _ => []
     pure (s, { obs, propfails := pf, branch := s!"list.{c.be}.{obs.headD ""}" })
+  | ["download@shadow", nameT] | ["download@active", nameT] =>
+    if ¬ c.shadowed then none else
+    let side := if args.head? = some "download@shadow" then s.sh.shadow else s.sh.active
+    let obs := match key? c nameT with
+      | none => ["err:badname"]
+      | some k => match download side k with
+        | .bytes b => ["bytes", bytesTok b]
+        | .notFound => ["notfound"]
+    -- both wrapped backends hold what the shadow client was given
+    let ghost := (s.mon.ups.find? (·.1 = nameT)).map (·.2)
+    let pf : List String := if mute then [] else
+      match impl, ghost with
+      | ["bytes", bt], some g => if bytes? bt ≠ some g then
+          [s!"side=impl key=shadow-side-not-last-upload a wrapped backend holds {(bt.take 40)} for {nameT}, the shadow client was given {((bytesTok g).take 40)}"] else []
+      | ["notfound"], some _ => [s!"side=impl key=shadow-side-not-last-upload a wrapped backend does not hold {nameT} after an acknowledged upload"]
+      | _, _ => []
+    some (s, { obs, propfails := pf, branch := s!"download-side.shadow.{obs.headD ""}" })
+  | ["put-raw", keyT, bT] => do
+    let key ← str? keyT
+    let b ← bytes? bT
+    if c.be ≠ "s3" ∨ conv s key then none
+    pure ({ s with sh := ShadowBackend.step slt s.sh (.uploadActive key b) }, { obs := ["ok"], branch := "put-raw.s3" })
   | opn :: nameT :: bT :: rest => do
     -- upload variants
     if ¬ (opn = "upload" ∨ opn = "upload@active" ∨ opn = "upload@shadow") then
@@ -231,7 +297,7 @@ def step (s : St) (kind : String) (args impl : List String) : Option (St × Step
     if rest ≠ [] ∧ ¬ plain then none
     if opn ≠ "upload" ∧ ¬ c.shadowed then none
     let obs : String :=
-      if opn = "upload" ∧ c.shadowed ∧ plain then "err:refused"
+      if opn = "upload" ∧ c.shadowed ∧ (ShadowBackend.upload slt s.sh "" { data := b, seekable := !plain }).2 = .refused then "err:refused"
       else match key? c nameT with
         | none => "err:badname"
         | some _ => "ok"
@@ -241,9 +307,14 @@ def step (s : St) (kind : String) (args impl : List String) : Option (St × Step
       | none => s
       | some k =>
         let nm := if s.names.any (·.1 = k) then s.names else (k, nameT) :: s.names
-        if opn = "upload" then { s with act := put slt s.act k b, shd := if c.shadowed then put slt s.shd k b else s.shd, names := nm }
-        else if opn = "upload@active" then { s with act := put slt s.act k b, names := nm }
-        else { s with shd := put slt s.shd k b, names := nm }
+        if c.be = "sql" then
+          match repoTag? nameT with
+          | some (rp, tg) => { s with tbl := SqlBackend.upsert s.tbl rp tg b, names := nm }
+          | none => s
+        else if opn = "upload" ∧ c.shadowed then
+          { s with sh := ShadowBackend.step slt s.sh (.upload k { data := b, seekable := !plain }), names := nm }
+        else if opn = "upload@shadow" then { s with sh := ShadowBackend.step slt s.sh (.uploadShadow k b), names := nm }
+        else { s with sh := ShadowBackend.step slt s.sh (.uploadActive k b), names := nm }
     let mon1 : Mon :=
       if opn ≠ "upload" then { s.mon with direct := true }
       else if impl = ["ok"] then { s.mon with ups := (nameT, b) :: s.mon.ups.filter (·.1 ≠ nameT), nups := s.mon.nups + 1 }
